@@ -77,8 +77,8 @@ func av1GenTU(r *rand.Rand, max int) cu.Frame {
 			sz = sizesAround(r, max)
 		case 7:
 			sz = 120 + r.IntN(16)
-			if r.IntN(30) == 0 {
-				sz = 16376 + r.IntN(16)
+			if max >= 1000 && r.IntN(10) == 0 {
+				sz = 16376 + r.IntN(16) // LEB128 width change 2 -> 3 bytes
 			}
 		default:
 			sz = 1 + r.IntN(2*max+1)
@@ -111,8 +111,8 @@ func av1PickMax(r *rand.Rand) int {
 	case 2:
 		return 3
 	case 3:
-		if r.IntN(4) == 0 {
-			return 16380 + r.IntN(10)
+		if r.IntN(20) == 0 {
+			return 16380 + r.IntN(10) // LEB128 size of the limit itself: 3 bytes
 		}
 		return 200 + r.IntN(100)
 	}
